@@ -48,7 +48,12 @@ type Program struct {
 
 // Load type-checks every package of the module in RepoDir (all initial
 // packages with syntax; dependencies from export data).
-func Load(tags string) (*Program, error) {
+func Load(tags string) (*Program, error) { return LoadOverlay(tags, nil) }
+
+// LoadOverlay is Load with some files replaced in memory (absolute path ->
+// contents); used by the thorough tier's self-test to analyse a kept seeded
+// change without touching /repo.
+func LoadOverlay(tags string, overlay map[string][]byte) (*Program, error) {
 	env := append(os.Environ(), "GOFLAGS=-mod=mod", "GOPROXY=off", "GOSUMDB=off", "GOTOOLCHAIN=local", "GOWORK=off")
 	cfg := &packages.Config{
 		Mode: packages.NeedName | packages.NeedFiles | packages.NeedCompiledGoFiles | packages.NeedImports |
@@ -56,6 +61,9 @@ func Load(tags string) (*Program, error) {
 		Dir:   RepoDir(),
 		Env:   env,
 		Tests: false,
+	}
+	if len(overlay) > 0 {
+		cfg.Overlay = overlay
 	}
 	if tags != "" {
 		cfg.BuildFlags = []string{"-tags=" + tags}
@@ -569,4 +577,18 @@ func (r *Report) Finish(p *Program, seed int, cmd string) int {
 		return 1
 	}
 	return 0
+}
+
+// IsKnown reports whether (prop, rule, construct) is listed as a known finding.
+func IsKnown(prop, rule, construct string) bool {
+	known, err := loadKnown()
+	if err != nil {
+		return false
+	}
+	for _, k := range known {
+		if k.prop == prop && k.rule == rule && k.construct == construct {
+			return true
+		}
+	}
+	return false
 }
